@@ -247,6 +247,19 @@ func genC05(r *rng, tier string, add func(g *G)) {
 		g.open()
 		g.keys = g.randomKeys(10)
 		fill := 20 + g.r.intn(40)
+		if i%3 == 2 {
+			// an overflow chain with holes: live records behind a hole must still be promoted
+			g.keys = g.collidingKeys(44, 14, "h")
+			for _, k := range g.keys {
+				g.put(k, g.r.bytes(10+g.r.intn(30)))
+			}
+			for j := 0; j < 3+g.r.intn(6); j++ {
+				g.del(g.keys[g.r.intn(28)])
+			}
+			g.indexShape()
+			g.c.tag("chain_with_holes_before_compaction")
+			fill = g.r.intn(20)
+		}
 		for j := 0; j < fill; j++ {
 			if g.r.chance(70) {
 				g.put(g.pick(), g.r.bytes(20+g.r.intn(60)))
@@ -356,7 +369,14 @@ func genC08(r *rng, tier string, add func(g *G)) {
 		g.params([]int{700, 1500, 1 << 20}[g.r.intn(3)], 512, 0.5, false)
 		g.open()
 		g.keys = g.randomKeys(8)
+		g.keys = append(g.keys, []byte{})
 		fill := 3 + g.r.intn(30)
+		if i%5 == 1 {
+			// the record of an empty key with an empty value has an all-zero header
+			g.put(g.pick(), g.r.bytes(g.r.intn(30)))
+			g.put([]byte{}, []byte{})
+			g.c.tag("empty_key_empty_value_record")
+		}
 		for j := 0; j < fill; j++ {
 			if g.r.chance(80) {
 				g.put(g.pick(), g.r.bytes(g.r.intn(300)))
@@ -581,6 +601,7 @@ func genC12(r *rng, tier string, add func(g *G)) {
 
 // ---------------------------------------------------------------- C15: compaction reclaims, nothing leaks, stays usable
 func genC15(r *rng, tier string, add func(g *G)) {
+	genC15Steady(r, tier, add)
 	n := scale(tier, 50, 800)
 	for i := 0; i < n; i++ {
 		g := newG(r.fork(), fmt.Sprintf("C15/%d", i))
@@ -639,6 +660,56 @@ func genC15(r *rng, tier string, add func(g *G)) {
 		if h := g.im.FS.OpenHandles(); h != 0 {
 			g.do(fmt.Sprintf("echo open-handles-after-close-%d", h), "echo ok")
 		}
+		add(g)
+	}
+}
+
+// steadyState: a steady overwrite workload with Compact after every clean restart must not
+// accumulate segments: the number of segment files stays bounded by the live data.
+func genC15Steady(r *rng, tier string, add func(g *G)) {
+	n := scale(tier, 6, 60)
+	for i := 0; i < n; i++ {
+		g := newG(r.fork(), fmt.Sprintf("C15/steady/%d", i))
+		g.dumpEvery = 0
+		// segments of 4096 bytes (3584 bytes of records), compaction at 50% dead bytes of the file: a
+		// segment that stays has less than 2048 dead bytes, i.e. at least 1536 live bytes, so
+		// live/1500 segments plus the ones being written bound the count. Only a quarter of the keys is
+		// overwritten per session, so a segment's garbage accumulates over several sessions.
+		g.params(4096, 512, 0.5, false)
+		g.open()
+		nkeys := 80 + g.r.intn(60)
+		g.keys = nil
+		for k := 0; k < nkeys; k++ {
+			g.keys = append(g.keys, []byte(fmt.Sprintf("key-%03d", k)))
+		}
+		for _, k := range g.keys {
+			g.put(k, g.r.bytes(40+g.r.intn(20)))
+		}
+		live := nkeys * 80
+		bound := live/1500 + 6
+		rounds := scale(tier, 40, 90)
+		for c := 0; c < rounds; c++ {
+			g.close()
+			g.open()
+			g.c.Steps[len(g.c.Steps)-1].Expect = []string{"open ok recovered=0"}
+			g.compact()
+			for j := 0; j < nkeys/4; j++ {
+				g.put(g.pick(), g.r.bytes(40+g.r.intn(20)))
+			}
+			nseg := 0
+			for _, nm := range g.im.FS.List(g.im.Dir) {
+				if strings.HasSuffix(nm, ".psg") {
+					nseg++
+				}
+			}
+			if nseg > bound {
+				g.do(fmt.Sprintf("echo %d-segment-files-for-%d-live-bytes-in-round-%d", nseg, live, c), "echo ok")
+				break
+			}
+		}
+		g.c.tag("steady_state_rounds")
+		g.checkAll()
+		g.dump()
 		add(g)
 	}
 }
